@@ -3,6 +3,7 @@ C20 — STRL compilation: every model solution is a valid space-time allocation.
 Property theorems over the model `ErdosVerif.Strl` (Model/Strl.lean, Model/StrlSem.lean).
 -/
 import ErdosVerif.Lemmas.StrlCap
+import ErdosVerif.Lemmas.StrlExact
 namespace ErdosVerif.C20
 open ErdosVerif.Strl
 
@@ -16,12 +17,24 @@ theorem objective_eq_utility (ctx : Ctx) (σ : Assign) (name : String) (cs : Lis
     rw [h']
   · rfl
 
+/- Full statement (NOT claimed; false for the current code, see
+`capacity_unaligned_counterexample`):
+
+  theorem capacity_sound_full (ctx) (name) (cs) (σ) (hg : 0 < ctx.gran)
+      (hfeas : (compile ctx (.obj name cs)).feasible σ = true)
+      (pid) (p) (hp : ctx.find pid = some p) (t : Nat) :
+      usageAt (populate ctx σ (.obj name cs)).placements pid t
+        + allocUsageAt pid t (.obj name cs) ≤ p.qty
+
+The proved theorem adds the hypothesis `Aligned ctx.gran root` (all leaf start times agree
+modulo the granularity), which excludes exactly the failing class C20-F1. -/
+
 /-- **Capacity.** For every tree whose leaf start times agree modulo the granularity
 (always the case for granularity 1), every assignment that satisfies the compiled model,
 every partition the context knows and every time `t`: what the placements read back by
 `populateResults` hold of the partition at `t`, plus what the Allocation leaves hold, is
 within the partition's quantity. -/
-theorem capacity_sound (ctx : Ctx) (name : String) (cs : List Expr) (σ : Assign)
+theorem capacity_sound_partial (ctx : Ctx) (name : String) (cs : List Expr) (σ : Assign)
     (hg : 0 < ctx.gran) (hal : Aligned ctx.gran (.obj name cs))
     (hfeas : (compile ctx (.obj name cs)).feasible σ = true)
     (pid : Nat) (p : Partition) (hp : ctx.find pid = some p) (t : Nat) :
@@ -46,4 +59,105 @@ theorem capacity_sound (ctx : Ctx) (name : String) (cs : List Expr) (σ : Assign
   have := hl.2
   have := hm.2
   omega
+
+/-- **Exact demand and duration, nothing for unsatisfied Chooses.** Every placement read back
+from an assignment that satisfies the compiled model is exactly one Choose leaf of the tree:
+its task name, its start, end = start + duration, start not in the past, quantities that sum
+to the requested amount, every entry dated at the start, positive, taken from a partition the
+Choose listed and that is available, within that partition's quantity. (A Choose whose
+indicator is 0 yields no placement: `populate` only builds one when `utility·indicator ≠ 0`.) -/
+theorem choose_exact (ctx : Ctx) (name : String) (cs : List Expr) (σ : Assign)
+    (hfeas : (compile ctx (.obj name cs)).feasible σ = true) :
+    ∀ pl ∈ (populate ctx σ (.obj name cs)).placements,
+      ∃ c ∈ chooseLeaves (.obj name cs), pl.matches ctx c := by
+  intro pl hpl
+  rw [compile_obj] at hfeas
+  simp only [MipModel.feasible, Bool.and_eq_true, List.all_eq_true] at hfeas
+  obtain ⟨hvars, hcons⟩ := hfeas
+  rw [populate_obj_placements] at hpl
+  obtain ⟨s, hs, hps⟩ := mem_mergeChildren _ _ hpl
+  simp only [chooseLeaves]
+  exact list_matches ctx σ cs [] 0 hvars (fun c h => hcons c (List.mem_append_left _ h)) s hs pl hps
+
+
+/-- Non-vacuity of `capacity_sound_partial` and `choose_exact`: an aligned tree (granularity 2, starts 0 and 2), a feasible
+assignment that places `A` and `B` on one slot each of the 2-slot partition `P0` during [2,4). -/
+def ctxOK : Ctx := ⟨[⟨0, "P0", 2⟩], [0], 0, 2⟩
+def treeOK : Expr :=
+  .obj "O" [.max "M" [.choose "A" "" [0] 1 0 2 3, .choose "A" "" [0] 1 2 2 1],
+            .min "N" [.choose "B" "" [0] 1 2 2 2, .alloc "R" [(0, 1)] 0 2]]
+def σOK : Assign := fun v =>
+  if v = ⟨[1, 0], .placed⟩ ∨ v = ⟨[1, 0], .using 0⟩ ∨ v = ⟨[0, 1], .placed⟩ ∨ v = ⟨[0, 1], .using 0⟩
+    ∨ v = ⟨[0], .maxInd⟩ ∨ v = ⟨[1], .minInd⟩ then 1
+  else if v = ⟨[0], .maxStart⟩ then 2
+  else if v = ⟨[0], .maxEnd⟩ ∨ v = ⟨[1], .minEnd⟩ then 4 else 0
+
+example : (compile ctxOK treeOK).feasible σOK = true ∧ alignedTo ctxOK.gran 0 treeOK = true ∧
+    (populate ctxOK σOK treeOK).placements.map (·.name) = ["A", "B"] ∧
+    usageAt (populate ctxOK σOK treeOK).placements 0 2 = 2 := by
+  refine ⟨by decide, by decide, by decide, by decide⟩
+
+/-! ### Witnesses -/
+
+def p1 : List Partition := [⟨0, "P0", 1⟩]
+
+/-- F1: granularity 2, `A` occupies [0,2), `B` occupies [1,3) on a 1-slot partition. -/
+def ctxF1 : Ctx := ⟨p1, [0], 0, 2⟩
+def treeF1 : Expr := .obj "O" [.choose "A" "" [0] 1 0 2 2, .choose "B" "" [0] 1 1 2 3]
+/-- Both placed, one slot each. -/
+def σAll1 : Assign := fun _ => 1
+
+theorem capacity_unaligned_counterexample :
+    (compile ctxF1 treeF1).feasible σAll1 = true ∧
+    usageAt (populate ctxF1 σAll1 treeF1).placements 0 1 = 2 ∧
+    ctxF1.find 0 = some ⟨0, "P0", 1⟩ ∧ ¬ Aligned ctxF1.gran treeF1 := by
+  refine ⟨by decide, by decide, rfl, ?_⟩
+  rintro ⟨r, hr⟩
+  simp [treeF1, alignedTo, alignedToL, ctxF1] at hr
+  omega
+
+
+/-- F2: `LessThan(A [0,1), B [1,2))` is ordered at compile time; `B` asks for 2 slots of a
+1-slot partition and can never be placed; the `Min` above still reports `A`. -/
+def ctxG1 : Ctx := ⟨p1, [0], 0, 1⟩
+def treeF2 : Expr :=
+  .obj "O" [.min "N" [.lt "L" (.choose "A" "" [0] 1 0 1 2) (.choose "B" "" [0] 2 1 1 3)]]
+def σF2 : Assign := fun v =>
+  if v = ⟨[0, 0, 0], .placed⟩ ∨ v = ⟨[0, 0, 0], .using 0⟩ then 1
+  else if v = ⟨[0], .minEnd⟩ then 2 else 0
+
+theorem static_lessthan_counterexample :
+    (compile ctxG1 treeF2).feasible σF2 = true ∧
+    (populate ctxG1 σF2 treeF2).placements.map (·.name) = ["A"] ∧
+    (populate ctxG1 σF2 treeF2).utility = some 3 := by
+  refine ⟨by decide, by decide, by decide⟩
+
+/-- F3: a `Min` over an Allocation is worth 1 although the tree has no Choose at all. -/
+def treeF3 : Expr := .obj "O" [.min "N" [.alloc "A" [(0, 1)] 0 1]]
+def σF3 : Assign := fun v => if v = ⟨[0], .minEnd⟩ then 1 else 0
+
+theorem constant_utility_counterexample :
+    (compile ctxG1 treeF3).feasible σF3 = true ∧ chooseLeaves treeF3 = [] ∧
+    (compile ctxG1 treeF3).objective σF3 = 1 := by
+  refine ⟨by decide, by decide, by decide⟩
+
+/-- F4: `LessThan(A [4,6), Max(B@2))`: the happens-before row `6 ≤ maxStart` is emitted
+unconditionally while `maxStart ≤ 2`: no assignment at all satisfies the model, although
+placing nothing is a valid schedule. -/
+def treeF4 : Expr :=
+  .obj "O" [.lt "L" (.choose "A" "" [0] 1 4 2 1) (.max "M" [.choose "B" "" [0] 1 2 1 1])]
+
+theorem unconditional_order_counterexample (σ : Assign) :
+    (compile ctxG1 treeF4).feasible σ = false := by
+  cases h : (compile ctxG1 treeF4).feasible σ with
+  | false => rfl
+  | true =>
+    exfalso
+    simp only [MipModel.feasible, Bool.and_eq_true, List.all_eq_true] at h
+    have hv := h.1 ⟨⟨[1, 0], .maxStart⟩, "M_max_start_time", .int, some (-2), some 2⟩ (by decide)
+    have hc := h.2 ⟨"L_happens_before_constraint", .le, -6, [(-1, ⟨[1, 0], .maxStart⟩)]⟩ (by decide)
+    simp [Var.holds] at hv
+    simp [Constr.holds, evalTerms] at hc
+    omega
+
 end ErdosVerif.C20
